@@ -712,10 +712,21 @@ func (t *Table) renameColumn(oldName, newName string) (*Column, error) {
 		return nil, fmt.Errorf("%w (%s)", ErrColumnAlreadyExists, newName)
 	}
 
+	// index names are derived from the column names: take the old names out
+	// before the rename and register the new ones after it, otherwise the
+	// same index can be created a second time within this transaction
+	for _, index := range t.indexes {
+		delete(t.indexesByName, index.Name())
+	}
+
 	col.colName = newName
 
 	delete(t.colsByName, oldName)
 	t.colsByName[newName] = col
+
+	for _, index := range t.indexes {
+		t.indexesByName[index.Name()] = index
+	}
 
 	return col, nil
 }
